@@ -37,6 +37,7 @@ pub struct SimSourceExec {
     scripts: Vec<Vec<Step>>,
     props: Arc<PlanProperties>,
     pub stats: Arc<SourceStats>,
+    projection: Option<Vec<usize>>,
 }
 
 impl SimSourceExec {
@@ -44,7 +45,23 @@ impl SimSourceExec {
         Self::with_ordering(name, scripts, None, false)
     }
     pub fn with_ordering(name: &str, scripts: Vec<Vec<Step>>, ordering: Option<LexOrdering>, unbounded: bool) -> Self {
-        let schema = table_schema();
+        Self::build(name, scripts, ordering, unbounded, None, Arc::new(SourceStats::default()))
+    }
+    /// Full constructor: `projection` selects columns of the table schema; `stats` may be shared by
+    /// all scans of one table.
+    pub fn build(
+        name: &str,
+        scripts: Vec<Vec<Step>>,
+        ordering: Option<LexOrdering>,
+        unbounded: bool,
+        projection: Option<Vec<usize>>,
+        stats: Arc<SourceStats>,
+    ) -> Self {
+        let full = table_schema();
+        let schema = match &projection {
+            Some(p) => Arc::new(full.project(p).expect("projection")),
+            None => full,
+        };
         let mut eq = EquivalenceProperties::new(Arc::clone(&schema));
         if let Some(o) = ordering {
             eq.add_ordering(o);
@@ -55,7 +72,7 @@ impl SimSourceExec {
             EmissionType::Incremental,
             if unbounded { Boundedness::Unbounded { requires_infinite_memory: false } } else { Boundedness::Bounded },
         );
-        SimSourceExec { name: name.to_string(), schema, scripts, props: Arc::new(props), stats: Arc::new(SourceStats::default()) }
+        SimSourceExec { name: name.to_string(), schema, scripts, props: Arc::new(props), stats, projection }
     }
     pub fn live_streams(&self) -> i64 {
         self.stats.live_streams.load(Ordering::Relaxed)
@@ -103,6 +120,7 @@ impl ExecutionPlan for SimSourceExec {
             self.scripts[partition].clone(),
             partition,
             Arc::clone(&self.stats),
+            self.projection.clone(),
         )))
     }
 }
@@ -115,11 +133,12 @@ pub struct ScriptStream {
     sleeping: Option<Pin<Box<tokio::time::Sleep>>>,
     stalled: bool,
     done: bool,
+    projection: Option<Vec<usize>>,
 }
 
 impl ScriptStream {
-    pub fn new(schema: SchemaRef, script: Vec<Step>, part: usize, stats: Arc<SourceStats>) -> Self {
-        ScriptStream { schema, script: script.into_iter(), part, stats, sleeping: None, stalled: false, done: false }
+    pub fn new(schema: SchemaRef, script: Vec<Step>, part: usize, stats: Arc<SourceStats>, projection: Option<Vec<usize>>) -> Self {
+        ScriptStream { schema, script: script.into_iter(), part, stats, sleeping: None, stalled: false, done: false, projection }
     }
 }
 
@@ -156,7 +175,19 @@ impl Stream for ScriptStream {
                     self.stats.batches.fetch_add(1, Ordering::Relaxed);
                     self.stats.rows.fetch_add(rows.len() as u64, Ordering::Relaxed);
                     sim::trace_event("src_batch", self.part as u64);
-                    return Poll::Ready(Some(Ok(rows_to_batch(&rows))));
+                    let mut b = rows_to_batch(&rows);
+                    if let Some(p) = &self.projection {
+                        b = if p.is_empty() {
+                            RecordBatch::try_new_with_options(
+                                Arc::clone(&self.schema),
+                                vec![],
+                                &arrow::record_batch::RecordBatchOptions::new().with_row_count(Some(rows.len())),
+                            )?
+                        } else {
+                            b.project(p)?
+                        };
+                    }
+                    return Poll::Ready(Some(Ok(b)));
                 }
                 Some(Step::Pending) => {
                     sim::probe("probe.source_pending");
